@@ -1,12 +1,631 @@
-/- C11 model — placeholder until the property is built -/
+/-
+  C11 — readable output reads back to the same value.
+
+  Mirrors (klongpy, with the three `fix:` commits of branch fix-c11):
+    writer.py  kg_write, kg_write_integer/float/char/string/symbol/list/dict  -> `kgWrite`, `kgWriteList`
+    parser.py  skip_space, skip, read_shifted_comment                         -> `skipSpace`, `skipF`, `readShiftedComment`
+               read_num (the scanning loop, `int(...)` / `float(...)`)        -> `scanNum`, `readNum`
+               read_char, read_string, read_sym                               -> `classify`/.chr, `readString`, `readSym`
+               kg_read (dispatch on the first characters)                     -> `classify`, `kgReadF`
+               read_list, list_to_dict                                        -> `readListF`, `mkDict`
+               kg_read_data (fix: dictionaries are built, not left as calls)  -> `Val.dict` result of `kgReadF`
+    sys_fn.py  eval_sys_read_string / eval_sys_read  (`.rs`, `.r`)            -> `rs`
+    monads.py  eval_monad_format on atoms (`$`)                               -> `fmt`
+    dyads.py   __e_dyad_form (`:$`)                                           -> `form`
+
+  The Python code addresses the text as (t, i); nothing in the mirrored functions looks
+  backwards, so the model works on the remaining suffix `t[i:]` and reports positions as
+  `len t - len suffix`.
+
+  Reals are carried as their decimal token (what `repr` yields and `float` reads back; that
+  `float(repr(x)) == x` is the trusted CPython fact).  Character classes (`isnumeric`,
+  `isalpha`, `isspace`) are the ASCII ones; written text never shows a non-ASCII character to
+  a class test (they only occur inside strings and after `0c`).
+  numpy's `kg_asarray` (lists become arrays; a *regular all-numeric* nest that mixes integers
+  and reals is coerced to reals) is outside the model: `noCoerce` names the values it leaves
+  alone, which is every value Klong itself constructs.
+-/
 import Klong.Model.Wire
 namespace Klong.C11
+open Klong.Wire
+
+/-! ### values -/
+
+inductive Val
+  | int  (n : Int)
+  | real (tok : List Char)      -- decimal token, e.g. `-2.5`, `1e-07`, `1e+22`
+  | chr  (c : Char)
+  | sym  (s : List Char)
+  | str  (cs : List Char)
+  | list (xs : List Val)
+  | dict (es : List Val)        -- entries in insertion order, each entry `list [k, v]`
+deriving Repr, BEq
+
+/-! ### character classes (ASCII part of str.isnumeric / isalpha / isspace) -/
+
+def isDigit (c : Char) : Bool := 48 ≤ c.toNat && c.toNat ≤ 57
+def isAlpha (c : Char) : Bool := (65 ≤ c.toNat && c.toNat ≤ 90) || (97 ≤ c.toNat && c.toNat ≤ 122)
+/-- types.py `is_symbolic` -/
+def isSymbolic (c : Char) : Bool := isAlpha c || isDigit c || c == '.'
+def isSpace (c : Char) : Bool := c == ' ' || (9 ≤ c.toNat && c.toNat ≤ 13) || (28 ≤ c.toNat && c.toNat ≤ 31)
+
+/-! ### decimal integers: `str(int(x))` and `int(s)` -/
+
+def digitChar (d : Nat) : Char := Char.ofNat (48 + d)
+def digitVal (c : Char) : Nat := c.toNat - 48
+
+def showNatF : Nat → Nat → List Char
+  | 0, _ => []
+  | f+1, n => if n < 10 then [digitChar n] else showNatF f (n / 10) ++ [digitChar (n % 10)]
+
+def showNat (n : Nat) : List Char := showNatF (n + 1) n
+
+def showInt (n : Int) : List Char :=
+  if n < 0 then '-' :: showNat n.natAbs else showNat n.natAbs
+
+def readNatAcc (a : Nat) : List Char → Nat
+  | [] => a
+  | c :: r => readNatAcc (a * 10 + digitVal c) r
+
+def readNat (s : List Char) : Nat := readNatAcc 0 s
+
+/-- `int(s)` for `-?digits+`; anything else is outside the model (`none`) -/
+def readInt (s : List Char) : Option Int :=
+  match s with
+  | [] => none
+  | c :: r =>
+    if c = '-' then
+      if r.isEmpty || !r.all isDigit then none else some (-(readNat r : Int))
+    else if !s.all isDigit then none else some (readNat s : Int)
+
+/-! ### writer -/
+
+/-- kg_write_string: every quote is doubled -/
+def escape : List Char → List Char
+  | [] => []
+  | c :: r => if c = '"' then '"' :: '"' :: escape r else c :: escape r
+
+def writeStr (cs : List Char) : List Char := '"' :: (escape cs ++ ['"'])
+
+mutual
+/-- writer.py `kg_write` (display=False) -/
+def kgWrite : Val → List Char
+  | .int n => showInt n
+  | .real t => t
+  | .chr c => ['0', 'c', c]
+  | .sym s => ':' :: s
+  | .str cs => writeStr cs
+  | .list xs => '[' :: (kgWriteList xs ++ [']'])
+  | .dict es => ':' :: '{' :: (kgWriteList es ++ ['}'])
+/-- `' '.join(kg_write(q) for q in x)` -/
+def kgWriteList : List Val → List Char
+  | [] => []
+  | [x] => kgWrite x
+  | x :: y :: r => kgWrite x ++ ' ' :: kgWriteList (y :: r)
+end
+
+/-! ### lexer -/
+
+/-- parser.py `skip_space` -/
+def skipSpace (nl : Bool) : List Char → List Char
+  | [] => []
+  | c :: r => if isSpace c && (nl || c != '\n') then skipSpace nl r else c :: r
+
+/-- parser.py `read_shifted_comment` (after the opening `:"`); `pend` = the previous
+    character was a quote that may be the first of a doubled one -/
+def readShiftedComment (pend : Bool) : List Char → List Char
+  | [] => []
+  | c :: r =>
+    if pend then (if c = '"' then readShiftedComment false r else c :: r)
+    else if c = '"' then readShiftedComment true r
+    else readShiftedComment false r
+
+def startsComment : List Char → Bool
+  | c1 :: c2 :: _ => c1 == ':' && c2 == '"'
+  | _ => false
+
+/-- parser.py `skip`: blanks, then any number of shifted comments (the recursive call drops
+    `ignore_newline`, as the code does); fuel = remaining comments that can still fit -/
+def skipF : Nat → Bool → List Char → List Char
+  | 0, nl, s => skipSpace nl s
+  | f+1, nl, s =>
+    if startsComment (skipSpace nl s) then
+      skipF f false (readShiftedComment false ((skipSpace nl s).drop 2))
+    else skipSpace nl s
+
+/-- parser.py `read_string` (after the opening quote): (rest, contents); `pend` = the previous
+    character was a quote: a second one is a literal quote, anything else ends the string -/
+def readString (pend : Bool) : List Char → List Char × List Char
+  | [] => ([], [])
+  | c :: r =>
+    if pend then
+      if c = '"' then let p := readString false r; (p.1, '"' :: p.2) else (c :: r, [])
+    else if c = '"' then readString true r
+    else let p := readString false r; (p.1, c :: p.2)
+
+def signNext : List Char → Bool
+  | s :: _ => s == '-' || s == '+'
+  | [] => false
+
+/-- parser.py `read_num`, the scanning loop after the optional sign:
+    (token characters consumed, rest, use_float) starting from flag `fl`.
+    At an `e` followed by a sign the code advances by three characters (`e`, the sign and,
+    unchecked, the one after it): `k` counts the characters still to be taken blindly. -/
+def scanNum (k : Nat) (fl : Bool) : List Char → List Char × List Char × Bool
+  | [] => ([], [], fl)
+  | c :: r =>
+    if k > 0 then
+      let p := scanNum (k - 1) fl r; (c :: p.1, p.2.1, p.2.2)
+    else if c = '.' then
+      let p := scanNum 0 true r; (c :: p.1, p.2.1, p.2.2)
+    else if c = 'e' then
+      let p := scanNum (if signNext r then 2 else 0) true r; (c :: p.1, p.2.1, p.2.2)
+    else if isDigit c then
+      let p := scanNum 0 fl r; (c :: p.1, p.2.1, p.2.2)
+    else ([], c :: r, fl)
+
+/-- the real tokens of the model: what `repr` prints for a finite float and `float` reads back,
+    `-?d+(.d+)?(e[+-]d+)?` with a `.` or an `e`.  (`float` accepts more — `1.`, `.5`, `1e5` —
+    but would not print those back; they are outside the model.) -/
+inductive TokSt
+  | s0   -- after the optional sign: a digit must come
+  | s1   -- in the integer digits
+  | s2   -- after the point: a digit must come
+  | s3   -- in the fraction digits
+  | s4   -- after `e`: a sign must come
+  | s4b  -- after the exponent sign: a digit must come
+  | s5   -- in the exponent digits
+deriving DecidableEq, Repr
+
+def accTok : TokSt → List Char → Bool
+  | .s0, c :: r => isDigit c && accTok .s1 r
+  | .s1, c :: r =>
+    if isDigit c then accTok .s1 r
+    else if c = '.' then accTok .s2 r
+    else if c = 'e' then accTok .s4 r
+    else false
+  | .s2, c :: r => isDigit c && accTok .s3 r
+  | .s3, [] => true
+  | .s3, c :: r =>
+    if isDigit c then accTok .s3 r
+    else if c = 'e' then accTok .s4 r
+    else false
+  | .s4, c :: r => (c == '+' || c == '-') && accTok .s4b r
+  | .s4b, c :: r => isDigit c && accTok .s5 r
+  | .s5, [] => true
+  | .s5, c :: r => isDigit c && accTok .s5 r
+  | _, [] => false
+
+def wfRealTok (t : List Char) : Bool :=
+  match t with
+  | c :: r => if c = '-' then accTok .s0 r else accTok .s0 t
+  | [] => false
+
+/-- parser.py `read_num` on the suffix starting at the number -/
+def readNum (s : List Char) : Option (Val × List Char) :=
+  let sign := s.head? == some '-'
+  let body := if sign then s.drop 1 else s
+  let p := scanNum 0 false body
+  let tok := if sign then '-' :: p.1 else p.1
+  if p.2.2 then
+    if wfRealTok tok then some (.real tok, p.2.1) else none
+  else
+    match readInt tok with
+    | some n => some (.int n, p.2.1)
+    | none => none
+
+/-- parser.py `read_sym` (module None; reserved names map to the same symbol) -/
+def readSym (s : List Char) : Val × List Char :=
+  (.sym (s.takeWhile isSymbolic), s.dropWhile isSymbolic)
+
+/-- the branch `kg_read` takes, decided on the first characters (after `skip`) -/
+inductive Lex
+  | eof | punct | chr | num | str | colonSym | colonRead | colonDict | colonOther
+  | lst | sym | op
+deriving Repr, DecidableEq
+
+def classify (neg : Bool) : List Char → Lex
+  | [] => .eof
+  | a :: r =>
+    if a = '\n' ∨ a = ';' ∨ a = '(' ∨ a = ')' ∨ a = '{' ∨ a = '}' ∨ a = ']' then .punct
+    else if a = '0' ∧ r.head? = some 'c' then .chr
+    else if isDigit a ∨ (neg = true ∧ a = '-' ∧ (r.head?.map isDigit) = some true) then .num
+    else if a = '"' then .str
+    else if a = ':' then
+      match r with
+      | [] => .op
+      | aa :: _ =>
+        if isAlpha aa ∨ aa = '.' then .colonSym
+        else if isDigit aa ∨ aa = '"' then .colonRead
+        else if aa = '{' then .colonDict
+        else .colonOther
+    else if a = '[' then .lst
+    else if isSymbolic a then .sym
+    else .op
+
+/-! ### dictionaries: Python key equality and `list_to_dict` -/
+
+/-- a decimal token as (mantissa, exponent of ten); only used to compare keys -/
+def decOf (t : List Char) : Option (Int × Int) :=
+  let neg := match t with | '-' :: _ => true | _ => false
+  let t1 := if neg then t.drop 1 else t
+  let d1 := t1.takeWhile isDigit
+  let r1 := t1.dropWhile isDigit
+  let r1' := match r1 with | '.' :: r => r | _ => r1
+  let d2 := match r1 with | '.' :: _ => r1'.takeWhile isDigit | _ => []
+  let r2 := match r1 with | '.' :: _ => r1'.dropWhile isDigit | _ => r1'
+  let m : Int := (readNat (d1 ++ d2) : Int) * (if neg then -1 else 1)
+  match r2 with
+  | [] => some (m, -(d2.length : Int))
+  | 'e' :: r3 =>
+    let eneg := match r3 with | '-' :: _ => true | _ => false
+    let r4 := match r3 with | '+' :: r => r | '-' :: r => r | _ => r3
+    if r4.isEmpty || !r4.all isDigit then none
+    else some (m, (readNat r4 : Int) * (if eneg then -1 else 1) - (d2.length : Int))
+  | _ => none
+
+def numOf : Val → Option (Int × Int)
+  | .int n => some (n, 0)
+  | .real t => decOf t
+  | _ => none
+
+/-- m1·10^e1 = m2·10^e2 -/
+def decEq (a b : Int × Int) : Bool :=
+  let e := min a.2 b.2
+  a.1 * (10 : Int) ^ (a.2 - e).toNat == b.1 * (10 : Int) ^ (b.2 - e).toNat
+
+/-- Python `==` (with equal hashes) between a stored dictionary key `a` and a looked-up key `b` -/
+def keyEq (a b : Val) : Bool :=
+  match a, b with
+  | .sym s, .sym t => s == t
+  | .chr c, .chr d => c == d
+  | .str s, .str t => s == t
+  | .chr c, .str t => [c] == t
+  | .str s, .chr d => s == [d]
+  | .chr c, .sym t => [c] == t      -- stored character, looked-up symbol: KGChar inherits str.__eq__
+  | x, y =>
+    match numOf x, numOf y with
+    | some p, some q => decEq p q
+    | _, _ => false
+
+def isKey : Val → Bool
+  | .list _ => false
+  | .dict _ => false
+  | _ => true
+
+/-- `d[k] = v` on an insertion-ordered dictionary whose entries are `list [k, v]` -/
+def dictSet (k v : Val) : List Val → List Val
+  | [] => [.list [k, v]]
+  | e :: es =>
+    match e with
+    | .list (k' :: rest) => if keyEq k' k then .list (k' :: v :: rest.drop 1) :: es else e :: dictSet k v es
+    | _ => e :: dictSet k v es
+
+/-- parser.py `list_to_dict`: `{x[0]: x[1] for x in a}` over what `read_list` returned;
+    entries that are not lists of at least two elements, or unhashable keys, raise -/
+def mkDictAcc (acc : List Val) : List Val → Option (List Val)
+  | [] => some acc
+  | e :: es =>
+    match e with
+    | .list (k :: v :: _) => if isKey k then mkDictAcc (dictSet k v acc) es else none
+    | _ => none
+
+def mkDict (es : List Val) : Option (List Val) := mkDictAcc [] es
+
+/-! ### reader -/
+
+mutual
+/-- parser.py `kg_read` (+ `kg_read_data`): `none` = the code raises or yields something that
+    is not a data value (operator, punctuation); `some (none, rest)` = Python `None` at the
+    end of the text. -/
+def kgReadF : Nat → Bool → Bool → List Char → Option (Option Val × List Char)
+  | 0, _, _, _ => none
+  | f+1, neg, nl, s0 =>
+    let s := skipF f nl s0
+    match classify neg s with
+    | .eof => some (none, [])
+    | .punct => none
+    | .chr =>
+      match s with
+      | _ :: _ :: c :: r => some (some (.chr c), r)
+      | _ => none
+    | .num => (readNum s).map fun p => (some p.1, p.2)
+    | .str => let p := readString false (s.drop 1); some (some (.str p.2), p.1)
+    | .colonSym => let p := readSym (s.drop 1); some (some p.1, p.2)
+    | .colonRead => kgReadF f false nl (s.drop 1)
+    | .colonDict =>
+      match readListF f '}' (s.drop 2) with
+      | some (es, rest) => (mkDict es).map fun d => (some (.dict d), rest)
+      | none => none
+    | .colonOther => none
+    | .lst =>
+      match readListF f ']' (s.drop 1) with
+      | some (xs, rest) => some (some (.list xs), rest)
+      | none => none
+    | .sym => let p := readSym s; some (some p.1, p.2)
+    | .op => none
+/-- parser.py `read_list` (one loop iteration per call) -/
+def readListF : Nat → Char → List Char → Option (List Val × List Char)
+  | 0, _, _ => none
+  | f+1, delim, s0 =>
+    match skipF f true s0 with
+    | [] => some ([], [])
+    | c :: r =>
+      if c = delim then some ([], r)
+      else
+        match kgReadF f true true (c :: r) with
+        | none => none
+        | some (none, rest) => some ([], rest)
+        | some (some q, rest) =>
+          match readListF f delim rest with
+          | some (qs, rest') => some (q :: qs, rest')
+          | none => none
+end
+
+/-- `.rs(text)` / `.r()` on `text`: the value read at position 0 and the end position -/
+def rs (t : List Char) : Option (Val × Nat) :=
+  match kgReadF (t.length + 2) true false t with
+  | some (some v, rest) => some (v, t.length - rest.length)
+  | _ => none
+
+/-! ### Format and Form on atoms -/
+
+/-- monads.py `eval_monad_format` on an atom -/
+def fmt : Val → Option (List Char)
+  | .int n => some (showInt n)
+  | .real t => some t
+  | .chr c => some [c]
+  | .sym s => some (':' :: s)
+  | .str cs => some cs
+  | _ => none
+
+/-- a symbol name the reader accepts after `:` -/
+def wfSym (s : List Char) : Bool :=
+  match s with
+  | c :: _ => (isAlpha c || c == '.') && s.all isSymbolic
+  | [] => false
+
+/-- dyads.py `__e_dyad_form`: `a:$b`; `none` = :undefined, an exception, or outside the model -/
+def form (a : Val) (b : List Char) : Option Val :=
+  match a with
+  | .sym _ =>
+    if b.isEmpty then none
+    else some (.sym (if b.head? == some ':' then b.drop 1 else b))
+  | .int _ =>
+    if b.isEmpty || (b.contains '.' && wfRealTok b) then none
+    else (readInt b).map .int
+  | .real _ => if wfRealTok b then some (.real b) else none
+  | .chr _ => match b with | [c] => some (.chr c) | _ => none
+  | .str _ => some (.str b)
+  | _ => none
+
+/-! ### the data domain -/
+
+mutual
+/-- token-level well-formedness: real tokens, symbol names, dictionary shape and keys -/
+def wfTok : Val → Bool
+  | .int _ => true
+  | .real t => wfRealTok t
+  | .chr _ => true
+  | .sym s => wfSym s
+  | .str _ => true
+  | .list xs => wfTokList xs
+  | .dict es => wfTokList es && entriesOK es && keysDistinct es
+def wfTokList : List Val → Bool
+  | [] => true
+  | x :: r => wfTok x && wfTokList r
+/-- every entry is `list [k, v]` with a hashable key -/
+def entriesOK : List Val → Bool
+  | [] => true
+  | e :: r => (match e with | .list [k, _] => isKey k | _ => false) && entriesOK r
+def keyOf : Val → Val
+  | .list (k :: _) => k
+  | v => v
+/-- no two entries have keys that are equal as Python keys -/
+def keysDistinct : List Val → Bool
+  | [] => true
+  | e :: r => r.all (fun e' => !keyEq (keyOf e) (keyOf e')) && keysDistinct r
+end
+
+mutual
+/-- numpy shape of a nest of numbers, `none` if ragged or not all numeric -/
+def shapeOf : Val → Option (List Nat)
+  | .int _ => some []
+  | .real _ => some []
+  | .list xs => shapesOf xs
+  | _ => none
+def shapesOf : List Val → Option (List Nat)
+  | [] => some [0]
+  | [x] => (shapeOf x).map fun s => 1 :: s
+  | x :: y :: r =>
+    match shapeOf x, shapesOf (y :: r) with
+    | some s, some (n :: s') => if s = s' then some ((n + 1) :: s) else none
+    | _, _ => none
+end
+
+mutual
+def hasInt : Val → Bool
+  | .int _ => true
+  | .list xs => hasIntL xs
+  | _ => false
+def hasIntL : List Val → Bool
+  | [] => false
+  | x :: r => hasInt x || hasIntL r
+end
+
+mutual
+def hasReal : Val → Bool
+  | .real _ => true
+  | .list xs => hasRealL xs
+  | _ => false
+def hasRealL : List Val → Bool
+  | [] => false
+  | x :: r => hasReal x || hasRealL r
+end
+
+/-- `kg_asarray` would turn the integers of this list into reals -/
+def coerces (v : Val) : Bool := (shapeOf v).isSome && hasInt v && hasReal v
+
+mutual
+/-- no list anywhere in the value is coerced by `kg_asarray` (dictionary entries `[k v]`
+    are taken apart by `list_to_dict` before any conversion) -/
+def noCoerce : Val → Bool
+  | .list xs => !coerces (.list xs) && noCoerceL xs
+  | .dict es => noCoerceE es
+  | _ => true
+def noCoerceL : List Val → Bool
+  | [] => true
+  | x :: r => noCoerce x && noCoerceL r
+def noCoerceE : List Val → Bool
+  | [] => true
+  | e :: r => (match e with | .list xs => noCoerceL xs | v => noCoerce v) && noCoerceE r
+end
+
+/-- the data values of the property: finite reals as `repr` prints them (no inf/nan, which
+    print as `inf`/`nan` and read back as symbols), readable symbol names, dictionaries with
+    atom keys, and lists as Klong constructs them -/
+def wfData (v : Val) : Bool := wfTok v && noCoerce v
+
+def WFData (v : Val) : Prop := wfData v = true
+instance (v : Val) : Decidable (WFData v) := by unfold WFData; exact inferInstance
+
+/-! ### Match (`~`), as far as it is needed: at least as fine as Klong's -/
+
+mutual
+def vmatch : Val → Val → Bool
+  | .int a, .int b => a == b
+  | .real a, .real b => a == b
+  | .chr a, .chr b => a == b
+  | .sym a, .sym b => a == b
+  | .str a, .str b => a == b
+  | .chr a, .str b => [a] == b
+  | .str a, .chr b => a == [b]
+  | .list a, .list b => vmatchL a b
+  | .dict a, .dict b => vmatchL a b
+  | _, _ => false
+def vmatchL : List Val → List Val → Bool
+  | [], [] => true
+  | x :: r, y :: r' => vmatch x y && vmatchL r r'
+  | _, _ => false
+end
+
+/-! ### driver: wire format without blanks
+
+    value  ::= i<int> | r<cps> | c<cp> | y<cps> | s<cps> | L(<value>,…) | D(<value>,…)
+    cps    ::= decimal code points separated by `.` (possibly empty)                     -/
+
+def showCps (cs : List Char) : String := ".".intercalate (cs.map fun c => toString c.toNat)
+
+def parseCps (s : String) : Option (List Char) :=
+  if s.isEmpty then some []
+  else (s.splitOn ".").mapM fun w => w.toNat?.map Char.ofNat
+
+mutual
+def showVal : Val → String
+  | .int n => s!"i{n}"
+  | .real t => "r" ++ showCps t
+  | .chr c => s!"c{c.toNat}"
+  | .sym s => "y" ++ showCps s
+  | .str cs => "s" ++ showCps cs
+  | .list xs => "L(" ++ showVals xs ++ ")"
+  | .dict es => "D(" ++ showVals es ++ ")"
+def showVals : List Val → String
+  | [] => ""
+  | [x] => showVal x
+  | x :: y :: r => showVal x ++ "," ++ showVals (y :: r)
+end
+
+def isAtomChar (c : Char) : Bool := isDigit c || c == '.' || c == '-'
+
+mutual
+def parseValF : Nat → List Char → Option (Val × List Char)
+  | 0, _ => none
+  | f+1, s =>
+    match s with
+    | [] => none
+    | tag :: r =>
+      if tag = 'L' ∨ tag = 'D' then
+        match r with
+        | '(' :: r1 =>
+          match r1 with
+          | ')' :: r2 => some (if tag = 'L' then .list [] else .dict [], r2)
+          | _ =>
+            match parseValsF f r1 with
+            | some (xs, r2) => some (if tag = 'L' then .list xs else .dict xs, r2)
+            | none => none
+        | _ => none
+      else
+        let body := String.ofList (r.takeWhile isAtomChar)
+        let rest := r.dropWhile isAtomChar
+        if tag = 'i' then body.toInt?.map fun n => (.int n, rest)
+        else if tag = 'r' then (parseCps body).map fun t => (.real t, rest)
+        else if tag = 'c' then body.toNat?.map fun n => (.chr (Char.ofNat n), rest)
+        else if tag = 'y' then (parseCps body).map fun t => (.sym t, rest)
+        else if tag = 's' then (parseCps body).map fun t => (.str t, rest)
+        else none
+/-- one or more values separated by `,` and closed by `)` -/
+def parseValsF : Nat → List Char → Option (List Val × List Char)
+  | 0, _ => none
+  | f+1, s =>
+    match parseValF f s with
+    | none => none
+    | some (v, r) =>
+      match r with
+      | ')' :: r' => some ([v], r')
+      | ',' :: r' =>
+        match parseValsF f r' with
+        | some (vs, r'') => some (v :: vs, r'')
+        | none => none
+      | _ => none
+end
+
+def parseVal (s : String) : Option Val :=
+  match parseValF (s.length + 1) s.toList with
+  | some (v, []) => some v
+  | _ => none
 
 structure State where
   unit : Unit := ()
 
 def init : State := {}
 
-def handle (s : State) (_ws : List String) : State × String := (s, "bad-op")
+def b01 (b : Bool) : String := if b then "1" else "0"
+
+def showRead (t : List Char) : String :=
+  match kgReadF (t.length + 2) true false t with
+  | some (some v, rest) => s!"v={showVal v} end={t.length - rest.length}"
+  | some (none, rest) => s!"v=eof end={t.length - rest.length}"
+  | none => "v=none end=0"
+
+def handle (s : State) (ws : List String) : State × String :=
+  match ws with
+  | ["rt", x] =>
+    match parseVal x with
+    | some v =>
+      let t := kgWrite v
+      let same := match rs t with | some (v', _) => v' == v && kgWrite v' == t | none => false
+      (s, s!"ok t={showCps t} {showRead t} wf={b01 (wfData v)} tok={b01 (wfTok v)} same={b01 same}")
+    | none => (s, "bad-op")
+  | ["w", x] =>
+    match parseVal x with
+    | some v => (s, s!"ok t={showCps (kgWrite v)}")
+    | none => (s, "bad-op")
+  | ["r", x] =>
+    match parseCps x with
+    | some t => (s, "ok " ++ showRead t)
+    | none => (s, "bad-op")
+  | ["r"] => (s, "ok " ++ showRead [])
+  | ["ff", x] =>
+    -- x:$$x
+    match parseVal x with
+    | some v =>
+      match fmt v with
+      | some t =>
+        match form v t with
+        | some v' => (s, s!"ok t={showCps t} v={showVal v'}")
+        | none => (s, s!"ok t={showCps t} v=none")
+      | none => (s, "ok t= v=none")
+    | none => (s, "bad-op")
+  | _ => (s, "bad-op")
 
 end Klong.C11
